@@ -108,8 +108,8 @@ func runASA(c *Case, keepStates bool) (r *asaRun, early *Verdict) {
 			return ret(uncovered("exec: " + err.Error()))
 		}
 		if keepStates {
-			st.EndSession() // snapshot must not carry mode
-			r.states = append(r.states, st.Clone())
+			snap := st.Clone() // snapshot does not carry the mode
+			r.states = append(r.states, snap)
 		}
 	}
 	st.EndSession()
@@ -227,3 +227,422 @@ func init() {
 func asaRefMerge(v4, v6, raw string) (*asam.State, error) {
 	return nil, &asam.ErrUnsupported{What: "v6/raw merge not yet modelled"}
 }
+
+// ------------------------------------------------------------------ C08
+
+func oracleC08asa(c *Case) Verdict {
+	r, early := runASA(c, false)
+	if early != nil {
+		return *early
+	}
+	classes := asaClasses(r)
+	if r.refusal != nil {
+		return fail("asa:refused:"+r.refusal.Rule,
+			"step %d command %q would be refused by the device: %s\n--- device\n%s--- target\n%s--- script\n%s",
+			r.refStep+1, r.refCmd, r.refusal.Msg, c.Files["device"], c.Files["code/router"], scriptText(r.steps))
+	}
+	// Non-trivial: >= 3 commands and a dependency between commands.
+	n := 0
+	created := map[string]bool{}
+	dep := false
+	for _, st := range r.steps {
+		for _, cmd := range st {
+			n++
+			f := strings.Fields(cmd)
+			switch {
+			case f[0] == "object-group" && len(f) >= 3:
+				created[f[2]] = true
+			case f[0] == "access-list" && len(f) >= 2:
+				for i, w := range f {
+					if w == "object-group" && i+1 < len(f) && created[f[i+1]] {
+						dep = true
+					}
+				}
+				created["acl:"+f[1]] = true
+			case f[0] == "access-group" && created["acl:"+f[1]]:
+				dep = true
+			case f[0] == "no" && len(f) > 1 && f[1] == "object-group", f[0] == "clear":
+				dep = true
+			}
+		}
+	}
+	return pass(n >= 3 && dep, classes...)
+}
+
+// ------------------------------------------------------------------ C10
+
+// flatten the script into single commands; joined lines give two.
+func flatten(steps [][]string) []string {
+	var l []string
+	for _, s := range steps {
+		l = append(l, s...)
+	}
+	return l
+}
+
+func parseCuts(s string, n int) []int {
+	var res []int
+	if s == "all" || s == "" {
+		for k := 1; k < n; k++ {
+			res = append(res, k)
+		}
+		return res
+	}
+	for _, w := range strings.Split(s, ",") {
+		if k, err := strconv.Atoi(w); err == nil && k > 0 && k < n {
+			res = append(res, k)
+		}
+	}
+	return res
+}
+
+func oracleC10asa(c *Case) Verdict {
+	r, early := runASA(c, false)
+	if early != nil {
+		return *early
+	}
+	if r.refusal != nil {
+		return discard("first-run-refused")
+	}
+	cmds := flatten(r.steps)
+	if len(cmds) < 2 {
+		return pass(false)
+	}
+	sc := asam.ScopeOf(r.b)
+	want := r.b.Canon(sc)
+	bits, _ := strconv.Atoi(c.Param("spelling"))
+	sp := spellingFromBits(bits)
+	// mark positions that are "inside" something
+	halfAt := map[int]bool{}
+	pos := 0
+	for _, st := range r.steps {
+		if len(st) == 2 {
+			halfAt[pos+1] = true
+		}
+		pos += len(st)
+	}
+	var classes []string
+	nt := false
+	aCanon := r.a.Canon(sc)
+	for _, k := range parseCuts(c.Param("cuts"), len(cmds)) {
+		st := r.a.Clone()
+		for _, cmd := range cmds[:k] {
+			if err := st.Exec(cmd); err != nil {
+				return uncovered("prefix exec: " + err.Error())
+			}
+		}
+		inSub := false
+		if k < len(cmds) {
+			next := cmds[k]
+			if strings.HasPrefix(next, "network-object") || strings.HasPrefix(next, "no network-object") ||
+				strings.HasPrefix(next, "port-object") || strings.HasPrefix(next, "no port-object") {
+				inSub = true
+			}
+		}
+		st.EndSession()
+		f2 := tool.Files{}
+		for n, v := range c.Files {
+			f2[n] = v
+		}
+		f2["device"] = st.Print(sp)
+		ctx := func() string {
+			return fmt.Sprintf("cut after command %d of %d\n--- original device\n%s--- target\n%s--- first script\n%s--- device at cut\n%s",
+				k, len(cmds), c.Files["device"], c.Files["code/router"], scriptText(r.steps), f2["device"])
+		}
+		res := tool.CompareStd(f2)
+		if res.Crashed() {
+			return fail("asa:resume-crash", "resumed compare crashed: %s\n%s", res.Panic, ctx())
+		}
+		if res.Exit != 0 {
+			return fail("asa:resume-rejected", "resumed compare rejected the half-changed device:\n%s\n%s", res.Stderr, ctx())
+		}
+		steps2 := tool.CiscoScript(res.Stdout)
+		for i, step := range steps2 {
+			for _, cmd := range step {
+				if err := st.Exec(cmd); err != nil {
+					if isUnsupported(err) {
+						return uncovered("resume exec: " + err.Error())
+					}
+					return fail("asa:resume-refused", "resumed script step %d %q refused: %v\n--- second script\n%s%s",
+						i+1, cmd, err, scriptText(steps2), ctx())
+				}
+			}
+		}
+		st.EndSession()
+		if got := st.Canon(sc); got != want {
+			return fail("asa:resume-not-converged", "resumed approve does not reach the target\n--- got\n%s\n--- want\n%s\n--- second script\n%s%s",
+				got, want, scriptText(steps2), ctx())
+		}
+		f3 := tool.Files{}
+		for n, v := range c.Files {
+			f3[n] = v
+		}
+		f3["device"] = st.Print(sp)
+		res3 := tool.CompareStd(f3)
+		if res3.Crashed() || res3.Exit != 0 || res3.Stdout != "" {
+			return fail("asa:resume-third-compare", "compare after resumed approve not empty (exit %d):\n%s%s\n--- second script\n%s--- device after resume\n%s%s",
+				res3.Exit, res3.Stdout, res3.Stderr, scriptText(steps2), f3["device"], ctx())
+		}
+		if halfAt[k] {
+			classes = append(classes, "cut:between-halves")
+		}
+		if inSub {
+			classes = append(classes, "cut:inside-submode")
+		}
+		classes = append(classes, "cut:evaluated")
+		nt = true
+		_ = aCanon
+	}
+	return pass(nt, classes...)
+}
+
+// ------------------------------------------------------------------ C14
+
+func oracleC14asa(c *Case) Verdict {
+	r, early := runASA(c, true)
+	if early != nil {
+		return *early
+	}
+	if r.refusal != nil {
+		return discard("refused-by-model")
+	}
+	// The property excludes edits to the membership of existing groups.
+	for _, st := range r.steps {
+		for _, cmd := range st {
+			f := strings.Fields(cmd)
+			if f[0] == "object-group" && len(f) >= 3 {
+				if _, ok := r.a.Groups[f[2]]; ok {
+					return discard("group-membership-edit")
+				}
+			}
+		}
+	}
+	sc := asam.ScopeOf(r.b)
+	univ := asam.Universe(r.a, r.b)
+	var classes []string
+	nt := false
+	for slot, newACL := range r.b.Bind {
+		if slot.Dir != "global" && !sc.Intfs[slot.Intf] {
+			continue
+		}
+		oldACL, ok := r.a.Bind[slot]
+		if !ok {
+			continue
+		}
+		type pv struct {
+			p    asam.Packet
+			want bool
+		}
+		var agree []pv
+		for _, p := range univ {
+			o, _ := r.a.Verdict(oldACL, p)
+			n, _ := r.b.Verdict(newACL, p)
+			if o == n {
+				agree = append(agree, pv{p, o})
+			}
+		}
+		prevKey := "\x00" + oldACL + "\x00" + strings.Join(r.a.ACLCanon(oldACL), "\n")
+		for i, st := range r.states {
+			cur, bound := st.Bind[slot]
+			if bound {
+				// Skip steps that did not touch what this slot evaluates.
+				key := "\x00" + cur + "\x00" + strings.Join(st.ACLCanon(cur), "\n")
+				if key == prevKey {
+					continue
+				}
+				prevKey = key
+			}
+			if !bound {
+				return fail("asa:transient-unbound", "after step %d nothing is bound at %s %s\n--- device\n%s--- target\n%s--- script\n%s",
+					i+1, slot.Dir, slot.Intf, c.Files["device"], c.Files["code/router"], scriptText(r.steps))
+			}
+			for _, x := range agree {
+				got, line := st.Verdict(cur, x.p)
+				if got != x.want {
+					sig := "asa:transient-flip"
+					if asaIsF13(r, slot, oldACL) {
+						sig = "asa:F13-acl-shared-by-two-slots-edited-in-place"
+					} else if asaIsF8(r, i, cur, line, newACL) {
+						sig = "asa:F8-moved-line-exposes-line-deleted-later"
+					}
+					word := map[bool]string{true: "permitted", false: "denied"}
+					return fail(sig, "after step %d (%s) packet %s is %s by line %d of %s, but it is %s before and after the change\n--- device\n%s--- target\n%s--- script\n%s",
+						i+1, strings.Join(r.steps[i], " \\N "), x.p, word[got], line, cur, word[x.want],
+						c.Files["device"], c.Files["code/router"], scriptText(r.steps))
+				}
+			}
+		}
+		if len(r.steps) >= 2 && len(agree) > 0 {
+			nt = true
+		}
+	}
+	for _, st := range r.steps {
+		if len(st) == 2 && strings.HasPrefix(st[0], "no access-list") {
+			classes = append(classes, "c14:move")
+			break
+		}
+	}
+	return pass(nt, classes...)
+}
+
+// asaIsF8 recognises the known root cause F8: the deciding line of the
+// transient verdict is a device line that a later step removes from its
+// place (deletes, or moves), and it became visible because an earlier step
+// moved a line from above it to a position below it.
+func asaIsF8(r *asaRun, step int, acl string, line int, newACL string) bool {
+	if line == 0 {
+		return false
+	}
+	st := r.states[step]
+	l := st.ACLs[acl]
+	if line > len(l) {
+		return false
+	}
+	deciding := l[line-1].Key(true)
+	// The deciding line is removed from its place (deleted, or moved as
+	// part of a joined line) by a later step.
+	later := false
+	for _, s := range r.steps[step+1:] {
+		f := strings.Fields(s[0])
+		if len(f) > 5 && f[0] == "no" && f[1] == "access-list" && f[2] == acl && f[3] == "line" {
+			if a, err := st.ParseACE(strings.Join(f[5:], " ")); err == nil && a.Key(true) == deciding {
+				later = true
+			}
+		}
+	}
+	if !later {
+		return false
+	}
+	// some downward move (joined delete+add with higher target line) happened up to this step
+	for _, s := range r.steps[:step+1] {
+		if len(s) == 2 && strings.HasPrefix(s[0], "no access-list") && strings.HasPrefix(s[1], "access-list") {
+			from := lineNo(s[0])
+			to := lineNo(s[1])
+			if from > 0 && to >= from {
+				return true
+			}
+		}
+	}
+	return false
+}
+
+// asaIsF13 recognises the known root cause F13: on the device one ACL is
+// bound at two slots for which the target has two different ACLs; the tool
+// edits the shared ACL in place for the first slot while the second slot
+// still uses it.
+func asaIsF13(r *asaRun, slot asam.Slot, oldACL string) bool {
+	for other, acl := range r.a.Bind {
+		if other != slot && acl == oldACL {
+			if nb, ok := r.b.Bind[other]; ok && nb != r.b.Bind[slot] {
+				return true
+			}
+		}
+	}
+	return false
+}
+
+func lineNo(cmd string) int {
+	f := strings.Fields(cmd)
+	for i, w := range f {
+		if w == "line" && i+1 < len(f) {
+			n, _ := strconv.Atoi(f[i+1])
+			return n
+		}
+	}
+	return 0
+}
+
+// ------------------------------------------------------------------ C16
+
+func oracleC16(c *Case) Verdict {
+	runs := 8
+	if n, err := strconv.Atoi(c.Param("runs")); err == nil && n > 1 {
+		runs = n
+	}
+	first := tool.CompareStd(c.Files)
+	if first.Crashed() {
+		return discard("crash")
+	}
+	for i := 1; i < runs; i++ {
+		r := tool.CompareStd(c.Files)
+		if r.Stdout != first.Stdout || r.Stderr != first.Stderr || r.Exit != first.Exit {
+			return fail(c.Family+":nondeterministic",
+				"run 1 and run %d on byte-identical inputs differ\n--- run 1 (exit %d)\n%s%s\n--- run %d (exit %d)\n%s%s\n--- device\n%s--- target\n%s",
+				i+1, first.Exit, first.Stdout, first.Stderr, i+1, r.Exit, r.Stdout, r.Stderr, c.Files["device"], c.Files["code/router"])
+		}
+	}
+	nt := c.Param("ties") != "" && c.Param("ties") != "0"
+	cl := []string{c.Family + ":exit" + strconv.Itoa(first.Exit)}
+	if first.Stdout != "" {
+		cl = append(cl, c.Family+":nonempty-script")
+	}
+	return pass(nt, cl...)
+}
+
+func init() {
+	register("C08", "asa", oracleC08asa)
+	register("C10", "asa", oracleC10asa)
+	register("C14", "asa", oracleC14asa)
+	register("C16", "asa", oracleC16)
+}
+
+// ------------------------------------------------------------------ C07
+
+func oracleC07asa(c *Case) Verdict {
+	r, early := runASA(c, true)
+	if early != nil {
+		return *early
+	}
+	if r.refusal != nil {
+		return discard("refused-by-model")
+	}
+	sc := asam.ScopeOf(r.b)
+	prot := r.a.Protected(sc)
+	frame := r.a.FrameText(sc)
+	keys := make([]string, 0, len(prot))
+	for k := range prot {
+		keys = append(keys, k)
+	}
+	sortStrings(keys)
+	before := map[string]string{}
+	for _, k := range keys {
+		before[k], _ = r.a.ObjText(k)
+	}
+	ctx := func() string {
+		return fmt.Sprintf("--- device\n%s--- target\n%s--- script\n%s--- protected set\n%s\n",
+			c.Files["device"], c.Files["code/router"], scriptText(r.steps), strings.Join(keys, " "))
+	}
+	for i, st := range r.states {
+		for _, k := range keys {
+			txt, ok := st.ObjText(k)
+			if !ok {
+				return fail("asa:protected-deleted", "step %d (%s) deletes %s which is outside Netspoc's scope\n%s",
+					i+1, strings.Join(r.steps[i], " \\N "), k, ctx())
+			}
+			if txt != before[k] {
+				sig := "asa:protected-changed"
+				if strings.HasPrefix(k, "grp:") {
+					sig = "asa:F3-group-shared-with-unmanaged-object-edited-in-place"
+				}
+				return fail(sig, "step %d (%s) changes %s which is outside Netspoc's scope\n--- before\n%s--- after\n%s%s",
+					i+1, strings.Join(r.steps[i], " \\N "), k, before[k], txt, ctx())
+			}
+		}
+		if f := st.FrameText(sc); f != frame {
+			return fail("asa:frame-changed", "step %d (%s) changes unmanaged bindings/routes/lines\n--- before\n%s\n--- after\n%s\n%s",
+				i+1, strings.Join(r.steps[i], " \\N "), frame, f, ctx())
+		}
+	}
+	nt := len(r.steps) > 0 && len(keys) > 0
+	var classes []string
+	if nt {
+		classes = append(classes, "c07:protected-nonempty")
+	}
+	// shared: a protected object is also reachable from managed content
+	empty := asam.Scope{Intfs: map[string]bool{}}
+	all := r.a.Protected(empty)
+	_ = all
+	return pass(nt, classes...)
+}
+
+func init() { register("C07", "asa", oracleC07asa) }
